@@ -7,3 +7,11 @@ pub assume_specification<T, A: std::alloc::Allocator> [std::collections::VecDequ
 ;
 pub assume_specification<T, A: std::alloc::Allocator> [std::collections::VecDeque::<T, A>::is_empty] (v: &std::collections::VecDeque<T, A>) -> (r: bool)
     ensures r == (v@.len() == 0);
+// Rewrite R28 target: `q.iter().position(|x| x == k)` -- the index of the FIRST element equal to k (std: "Searches for an element
+// in an iterator, returning its index"). The element type's `==` is taken to agree with spec equality (key model).
+#[verifier::external_body]
+pub fn vx_position<T: std::cmp::PartialEq>(q: &std::collections::VecDeque<T>, k: &T) -> (r: Option<usize>)
+    ensures
+        r matches Some(i) ==> i < q@.len() && q@[i as int] == *k && forall|j: int| 0 <= j < i ==> q@[j] != *k,
+        r is None ==> forall|j: int| 0 <= j < q@.len() ==> q@[j] != *k,
+{ q.iter().position(|x| x == k) }
